@@ -517,6 +517,7 @@ class EventBus:
             # a forwarding handler dispatches the event it is handling: that must not make the event its own parent
             if current_event is not None and current_event.event_id != event.event_id:
                 event.event_parent_id = current_event.event_id
+                event._event_parent = current_event  # pyright: ignore[reportPrivateUsage]
 
         # Track child events - if we're inside a handler, add this event to the handler's event_children list
         # Only track if this is a NEW event (not forwarding an existing event)
@@ -1006,13 +1007,15 @@ class EventBus:
         while current.event_parent_id and current.event_parent_id not in checked_ids:
             checked_ids.add(current.event_parent_id)
 
-            # Find parent event in any bus's history
-            parent_event = None
+            # Find parent event: the child's own reference first (an in-flight parent may already have been
+            # evicted from every history when max_history_size is small), then any bus's history
+            parent_event = current._event_parent  # pyright: ignore[reportPrivateUsage]
             # Create a list copy to avoid "Set changed size during iteration" error
             for bus in list(EventBus.all_instances):
+                if parent_event:
+                    break
                 if bus and current.event_parent_id in bus.event_history:
                     parent_event = bus.event_history[current.event_parent_id]
-                    break
 
             if not parent_event:
                 break
